@@ -314,6 +314,13 @@ def m_encoded_point(ex, a, callee, canon):
     return err("sec1")
 
 
+@model(r"(^|::)PublicKey::from_sec1_bytes$")
+def m_from_sec1_oracle(ex, a, callee, canon):
+    if ex.decide(ex.fresh("sec1_on_curve", z3.BoolSort())):
+        return ok(Opaque("K256PublicKey", Bytes(ex.bytes_of(a[0]))))
+    return err("elliptic_curve::Error")
+
+
 @model(r"(^|::)PublicKey::from_encoded_point$")
 def m_pk_from_encoded(ex, a, callee, canon):
     p = deref(a[0])
